@@ -122,6 +122,7 @@ func runC06(c *Ctx) {
 	const r2 = "C06.R2 close sites follow their joins"
 	dc := dlr + "close"
 	ruleTimersStoppedOnRemoval(c, r2)
+	ruleOneTimerPerCall(c, r2)
 	c.Before(r2, dc, "pending call timers cancelled before the close", `^send:%d\.actionChan<-closure:router\.\(\*dealer\)\.close\$1$`, `^call:builtin:close\(%d\.actionChan\)$`)
 	c.Before(r2, dc, "timer goroutines joined before the close", `^call:\(\*sync\.WaitGroup\)\.Wait\(%d\.&timers\)$`, `^call:builtin:close\(%d\.actionChan\)$`)
 	c.Before(r2, dc, "timers cancelled before waiting for them", `^send:%d\.actionChan<-`, `^call:\(\*sync\.WaitGroup\)\.Wait\(%d\.&timers\)$`)
